@@ -1609,7 +1609,16 @@ func (g *mgen) seqScenariosIn(n int) {
 		}
 		// second use of the same objects
 		var a, b []*rwp.InboundMessage
-		switch g.r.Intn(3) {
+		switch g.r.Intn(4) {
+		case 3:
+			// two frames of the same size drawn into one buffer (image bytes overwritten in place, same backing array)
+			n := g.r.Pick(1, 170, 171, 340, 600)
+			ty := rwp.HWCGfx_ImageTypeE(g.r.Intn(3))
+			frame := func() []*rwp.InboundMessage {
+				return []*rwp.InboundMessage{{States: []*rwp.HWCState{{HWCIDs: []uint32{12, 13},
+					HWCGfx: &rwp.HWCGfx{ImageType: ty, W: 64, H: 32, ImageData: g.r.Bytes(n)}}}}}
+			}
+			a, b = frame(), frame()
 		case 0:
 			a, b = g.msgs(), g.msgs()
 		case 1:
